@@ -177,17 +177,18 @@ example : (decision ⟨false, false, true, true, true, true, false, true, false,
 /-! ## Never removed early -/
 
 /-
-  FULL statement (false of the code — finding F5, see `never_early_fails`):
+  FULL statement (false of the code — finding F5b, see `never_early_fails`):
     ∀ s l s', Reach own s → step own s l = some s' → own ∈ s.fins → required s' = true → own ∈ s'.fins
   i.e. no step — of anybody but a foreign actor stripping the finalizer, which `editFins` excludes —
   takes the own finalizer off an object on which, after the step, a matching mandatory deletion
   handler is unfinished or a matching daemon is alive.
 
-  Proved: the same under `Guard` on every step of the run: (G1) no JSON patch that carries a removal is
-  answered 422 (⇒ no removal is ever carried in `memory.remaining_patch`), and (G2) when a removal
-  is queued, no foreign write lands between the decision and the cycle's own merge patch.
-  Both exclusions are necessary: `stale_release_witness` breaks G1 only, `stale_release_via_merge_witness`
-  breaks G2 only.
+  Proved: the same under `Guard` on every step of the run, which constrains ONE kind of step only:
+  when a removal is queued, no foreign write lands between the decision and the cycle's own merge
+  patch (F5b's shape). Everything else is unconstrained: any number of genuine or injected HTTP 422
+  on any JSON patch, at any moment (since repair 1c8f3dd nothing of a rejected finalizer edit is
+  carried: `conflict_carries_nothing`, `cycle_decides_anew`). The exclusion is necessary:
+  `stale_release_via_merge_witness`.
 -/
 theorem never_early_partial {own : String} {s s' : State} {l : Label} (hr : ReachG own s)
     (hs : step own s l = some s') (hown : own ∈ s.fins) (hreq : required s' = true) : own ∈ s'.fins :=
@@ -228,29 +229,71 @@ def w0 : State :=
 
 def quiet : Env := { consistent := true, merge := false, otherChanging := false, otherDelays := false }
 
-/-- F5 in the model: the finalizer is added; deletion is requested; a label edit makes the deletion
-handler mismatch, the cycle queues the removal; a second label edit (the handler matches again)
-slips in before the JSON patch → 422, `[allow, allow]` carried; the next cycle sees a blocked,
-marked object whose handler matches, decides nothing, and applies the carried removal: the object
-is gone while its mandatory deletion handler has not finished. -/
-theorem stale_release_witness (own : String) :
-    ∃ s s', Reach own s ∧ step own s (.jsonPatch false) = some s' ∧
-      own ∈ s.fins ∧ s.marked = true ∧ required s' = true ∧ own ∉ s'.fins ∧ s'.gone = true ∧
-      -- it is the carried removal, not this cycle's decision:
-      (∃ p, s.pending = some p ∧ p.fns = [Fn.allow, Fn.allow] ∧
-            (decision (inputs own { s with pending := none, mem := p.fns } quiet)).fns = []) := by
-  let ls : List Label := [.decide quiet, .jsonPatch false, .mark, .toggleDel, .decide quiet, .toggleDel,
-                          .jsonPatch false, .decide quiet]
-  have hrun : run own w0 ls = some
-      { w0 with marked := true, fins := [own], rv := 4, mem := [Fn.allow, Fn.allow],
-                pending := some { fns := [Fn.allow, Fn.allow], rvTest := 4, view := [own], merge := false } } := by
-    simp [ls, run, step, stepDecide, stepJson, stepMark, w0, quiet, decision, inputs, Decision.fns,
-      mustBlockG, addG, removeG, earlyG, releaseG, applyFns, Fn.apply, blockDeletion, allowDeletion, allowLoop]
-  refine ⟨_, { w0 with marked := true, fins := [], rv := 5, gone := true }, reach_of_run ls (Reach.init (by simp [Init, w0])) hrun, ?_, ?_⟩
-  · simp [step, stepJson, w0, applyFns, Fn.apply, allowDeletion, allowLoop]
-  · simp [w0, required, decision, inputs, Decision.fns, quiet, mustBlockG, addG, removeG, earlyG, releaseG]
+/-- A rejected JSON patch (genuine conflict or injected 422) changes nothing on the server and
+leaves NOTHING in `memory.remaining_patch`: the framework's own finalizer edits are not carried. -/
+theorem conflict_carries_nothing {own : String} {s s' : State} {p : Pending} {forced : Bool}
+    (hp : s.pending = some p) (hs : step own s (.jsonPatch forced) = some s')
+    (hrej : forced = true ∨ s.rv ≠ p.rvTest) :
+    s'.fins = s.fins ∧ s'.rv = s.rv ∧ s'.mem = [] ∧ s'.pending = none := by
+  unfold step at hs
+  split at hs
+  · cases hs
+  simp only [stepJson, hp] at hs
+  split at hs
+  · cases hs
+  · split at hs
+    · cases hs; exact ⟨rfl, rfl, rfl, rfl⟩
+    · split at hs
+      · cases hs; exact ⟨rfl, rfl, carry_nil _, rfl⟩
+      · next hacc =>
+        simp only [Bool.or_eq_true, bne_iff_ne, ne_eq, not_or, Bool.not_eq_true, Decidable.not_not] at hacc
+        rcases hrej with h | h
+        · rw [h] at hacc; cases hacc.1
+        · exact absurd hacc.2 h
 
-/-- The second way (G2): no 422 at all. The cycle that queued the removal also has dict content;
+/-- Hence, in every reachable state — after any number of conflicts — a cycle's fns are exactly
+the decision computed from the object it sees NOW and the memory NOW; nothing stale is mixed in,
+and the JSON patch will be tested against that very version. -/
+theorem cycle_decides_anew {own : String} {s s' : State} {e : Env} (hr : Reach own s)
+    (hs : step own s (.decide e) = some s') :
+    s.mem = [] ∧ ∃ p, s'.pending = some p ∧ p.fns = (decision (inputs own s e)).fns ∧
+      p.rvTest = s.rv ∧ p.view = s.fins := by
+  have hm := mem_nil_reach hr
+  refine ⟨hm, ?_⟩
+  unfold step at hs
+  split at hs
+  · cases hs
+  simp only [stepDecide] at hs
+  split at hs
+  · cases hs
+  · cases hs
+    exact ⟨_, rfl, by simp [hm], rfl, rfl⟩
+
+/-- The guard constrains merge patches only. -/
+theorem guard_of_not_merge (s : State) (l : Label) (h : l ≠ .mergePatch) : Guard s l := by
+  cases l <;> first | trivial | exact absurd rfl h
+
+/-- The history of the former finding F5, now safe: the finalizer is added; deletion is requested;
+a label edit makes the deletion handler mismatch, the cycle queues the removal; a second label edit
+(the handler matches again) slips in before the JSON patch → 422; the next cycle decides anew — no
+removal — and the object keeps its finalizer while the handler has not finished. -/
+theorem conflict_on_release_redecided (own : String) :
+    run own w0 [.decide quiet, .jsonPatch false, .mark, .toggleDel, .decide quiet, .toggleDel,
+                .jsonPatch false, .decide quiet, .jsonPatch false] =
+      some { w0 with marked := true, fins := [own], rv := 4 } := by
+  simp [run, step, stepDecide, stepJson, stepMark, w0, quiet, decision, inputs, Decision.fns,
+    mustBlockG, addG, removeG, earlyG, releaseG, applyFns, Fn.apply, blockDeletion, allowDeletion, allowLoop,
+    carry, ownFns]
+
+/-- …and of the former F5c: a rejected addition is not repeated on an object that no longer needs it. -/
+theorem conflict_on_add_redecided (own : String) :
+    run own w0 [.decide quiet, .toggleDel, .jsonPatch false, .decide quiet, .jsonPatch false] =
+      some { w0 with matchDel := false, rv := 1 } := by
+  simp [run, step, stepDecide, stepJson, w0, quiet, decision, inputs, Decision.fns,
+    mustBlockG, addG, removeG, earlyG, releaseG, applyFns, Fn.apply, blockDeletion, carry, ownFns]
+
+/-- F5b in the model: no 422 at all. The finalizer is added; deletion is requested; a label edit makes
+the deletion handler mismatch; the cycle that queues the removal also has dict content;
 the foreign label edit lands before its merge patch, whose response re-bases the `test`. -/
 theorem stale_release_via_merge_witness (own : String) :
     ∃ s s', Reach own s ∧ step own s (.jsonPatch false) = some s' ∧
@@ -266,30 +309,12 @@ theorem stale_release_via_merge_witness (own : String) :
   · simp [step, stepJson, w0, applyFns, Fn.apply, allowDeletion, allowLoop]
   · simp [w0, required]
 
-/-- F5c, the benign mirror: a carried ADDITION. The cycle queues `block`; a label edit makes the
-handler mismatch before the JSON patch → 422, `[block]` carried; the next cycle sees an object that
-nothing requires a finalizer on, decides nothing, and applies the carried addition. -/
-theorem stale_add_witness (own : String) :
-    ∃ s s', Reach own s ∧ step own s (.jsonPatch false) = some s' ∧
-      own ∉ s.fins ∧ own ∈ s'.fins ∧ s.matchDel = false ∧ s.matchDmn = false ∧
-      (∃ p, s.pending = some p ∧ p.fns = [Fn.block] ∧
-            (decision (inputs own { s with pending := none, mem := p.fns } quiet)).fns = []) := by
-  let ls : List Label := [.decide quiet, .toggleDel, .jsonPatch false, .decide quiet]
-  have hrun : run own w0 ls = some
-      { w0 with matchDel := false, rv := 1, mem := [Fn.block],
-                pending := some { fns := [Fn.block], rvTest := 1, view := [], merge := false } } := by
-    simp [ls, run, step, stepDecide, stepJson, w0, quiet, decision, inputs, Decision.fns,
-      mustBlockG, addG, removeG, earlyG, releaseG, applyFns, Fn.apply, blockDeletion]
-  refine ⟨_, { w0 with matchDel := false, rv := 2, fins := [own] }, reach_of_run ls (Reach.init (by simp [Init, w0])) hrun, ?_, ?_⟩
-  · simp [step, stepJson, w0, applyFns, Fn.apply, blockDeletion]
-  · simp [w0, decision, inputs, Decision.fns, quiet, mustBlockG, addG, removeG, earlyG, releaseG]
-
 /-- Hence the full statement does not hold of the mechanism. -/
 theorem never_early_fails (own : String) :
     ¬ (∀ (s s' : State) (l : Label), Reach own s → step own s l = some s' → own ∈ s.fins →
           required s' = true → own ∈ s'.fins) := by
   intro h
-  obtain ⟨s, s', hr, hs, ho, _, hq, hn, _⟩ := stale_release_witness own
+  obtain ⟨s, s', hr, hs, ho, _, hq, hn, _⟩ := stale_release_via_merge_witness own
   exact hn (h s s' _ hr hs ho hq)
 
 /-! ## Released eventually; added and removed with the matching -/
@@ -428,14 +453,14 @@ example : ∃ s, ReachG "k" s ∧ s.gone = true ∧ s.delDone = true := by
   refine ⟨{ w0 with gone := true, marked := true, rv := 3, delDone := true }, ?_, rfl, rfl⟩
   have s0 : ReachG "k" w0 := ReachG.init (by simp [Init, w0])
   have s1 := ReachG.step (l := .decide quiet) s0 trivial (s' := { w0 with pending := some ⟨[Fn.block], 0, [], false⟩ }) (by decide)
-  have s2 := ReachG.step (l := .jsonPatch false) s1 (by intro p hp h; simp at hp; subst hp; simp [w0] at h)
+  have s2 := ReachG.step (l := .jsonPatch false) s1 trivial
     (s' := { w0 with fins := ["k"], rv := 1 }) (by decide)
   have s3 := ReachG.step (l := .mark) s2 trivial (s' := { w0 with fins := ["k"], rv := 2, marked := true }) (by decide)
   have s4 := ReachG.step (l := .handlerFinishes) s3 trivial
     (s' := { w0 with fins := ["k"], rv := 2, marked := true, delDone := true }) (by decide)
   have s5 := ReachG.step (l := .decide quiet) s4 trivial
     (s' := { w0 with fins := ["k"], rv := 2, marked := true, delDone := true, pending := some ⟨[Fn.allow], 2, ["k"], false⟩ }) (by decide)
-  exact ReachG.step (l := .jsonPatch false) s5 (by intro p hp h; simp at hp; subst hp; simp at h) (by decide)
+  exact ReachG.step (l := .jsonPatch false) s5 trivial (by decide)
 
 /-- The hypotheses of `never_early_partial` are met with the requirement in force: a marked,
 blocked object whose handler has failed so far keeps the finalizer through a cycle. -/
@@ -443,7 +468,7 @@ example : ∃ s s', ReachG "k" s ∧ step "k" s (.decide quiet) = some s' ∧ "k
   refine ⟨{ w0 with fins := ["k"], rv := 2, marked := true }, _, ?_, rfl, by decide, by decide⟩
   have s0 : ReachG "k" w0 := ReachG.init (by simp [Init, w0])
   have s1 := ReachG.step (l := .decide quiet) s0 trivial (s' := { w0 with pending := some ⟨[Fn.block], 0, [], false⟩ }) (by decide)
-  have s2 := ReachG.step (l := .jsonPatch false) s1 (by intro p hp h; simp at hp; subst hp; simp [w0] at h)
+  have s2 := ReachG.step (l := .jsonPatch false) s1 trivial
     (s' := { w0 with fins := ["k"], rv := 1 }) (by decide)
   exact ReachG.step (l := .mark) s2 trivial (by decide)
 
@@ -451,7 +476,7 @@ example : ∃ s s', ReachG "k" s ∧ step "k" s (.decide quiet) = some s' ∧ "k
 example : ∃ s, ReachGH "k" s true := by
   have s0 : ReachGH "k" w0 false := ReachGH.init (by simp [Init, w0])
   have s1 := ReachGH.step (l := .decide quiet) s0 trivial (s' := { w0 with pending := some ⟨[Fn.block], 0, [], false⟩ }) (by decide)
-  have s2 := ReachGH.step (l := .jsonPatch false) s1 (by intro p hp h; simp at hp; subst hp; simp [w0] at h)
+  have s2 := ReachGH.step (l := .jsonPatch false) s1 trivial
     (s' := { w0 with fins := ["k"], rv := 1 }) (by decide)
   have s3 := ReachGH.step (l := .mark) s2 trivial (s' := { w0 with fins := ["k"], rv := 2, marked := true }) (by decide)
   exact ⟨_, s3⟩
